@@ -291,14 +291,21 @@ def composite_rules(chk, qual, weighted):
         outs = it.run()
         chk.count(len(outs))
         main, fallback = [], []
+        none_exit = False
         for o in outs:
             if o.kind == "raise":
                 chk.bad("O7.5", g.qual, "%s escapes %s" % (show(o.value), prop), node=g.node, stmt="escape-%s" % prop)
+                continue
+            if o.kind == "normal" or (o.kind == "return" and o.value in (None, ("const", None))):
+                chk.bad("O7.4", g.qual, "%s can complete without returning a value (it reads back as None instead of the aggregate over the children)" % prop, node=g.node, stmt="%s-returns-none" % prop)
+                none_exit = True
                 continue
             if o.kind != "return":
                 continue
             fell_back = any(e[0] == "caught" for e in o.path.events)
             (fallback if fell_back else main).append(o)
+        if none_exit:
+            continue
         if len({N(o.value) for o in main}) != 1:
             chk.undecided("O7.4", g.qual, "%s is not a single aggregate expression" % prop, node=g.node)
             continue
@@ -416,8 +423,20 @@ def children_kept(chk, qual):
             conds = "; ".join("%s is %s" % (show(e[1]), e[2]) for e in o.path.events if e[0] == "branch" and e[4] == "forked")
             chk.bad("O7.2", init.qual, "the constructor can complete without binding its own list of children to the instance%s: the class-level `children` list is then shared by every such composite" % (" (when %s)" % conds if conds else ""), node=init.node, stmt="children-not-bound")
             ok = False
+    # the attribute the demand getter returns exists before the first write (controllers read `target.demand` first)
+    cls = prog.cls(qual)
+    getter = prog.pick(cls.methods.get("demand", []), "getter")
+    gouts = Interp(prog, getter).run() if getter is not None else []
+    if len(gouts) == 1 and gouts[0].kind == "return" and gouts[0].value[0] == "attr" and gouts[0].value[1] == SELF:
+        rec_attr = gouts[0].value
+        for o in Interp(prog, init, assert_raises=False).run():
+            chk.count()
+            if o.kind in ("normal", "return") and not any(e[0] == "store" and e[1] == rec_attr for e in o.path.events):
+                chk.bad("O7.1", init.qual, "the constructor does not initialise %s, which the demand getter returns: reading the composite's demand before the first write (every controller's `target.demand += ...`) raises AttributeError" % show(rec_attr), node=init.node, stmt="demand-not-initialised")
+                ok = False
+                break
     if ok:
-        chk.ok("O7.2", init.qual, "every constructor path binds a fresh container of the given children", node=init.node)
+        chk.ok("O7.2", init.qual, "every constructor path binds a fresh container of the given children and initialises the stored demand", node=init.node)
 
 
 def weight_validation(chk):
